@@ -47,6 +47,8 @@ def step (st : St) : List String → St × List String
       (t.1, if t.1.reading then [] else t.2)
     else (st, [])
   | ["read"] => if st.reading then (st, ["busy"]) else tryRead st
+  -- a Read cancelled between its start and the clearing of its deadline returns the cancellation and takes nothing
+  | ["readx"] => if st.reading then (st, ["busy"]) else (st, ["cancelled"])
   | ["cancel"] =>
     if st.reading then ({ st with r := cancel st.r st.r.pending.length, reading := false }, ["cancelled"])
     else (st, ["idle"])
